@@ -16,7 +16,7 @@ RULE = ('cases = (data kind, real/complex, N in 3..200, order in 1..min(N-1,30),
 ASSUMPTIONS = ['biased autocorrelation computed by the monitor with numpy dot products',
                'singular autocorrelation (lambda_min <= 1e-10 lambda_max) discarded by guard',
                'least-squares comparison guarded by cond(data matrix)^2 <= 1e8',
-               'integer data driven as int64 / float only (narrow integer dtypes overflow in numpy arithmetic)']
+               'integer data are driven as int64, as float and as int8/int16/int32/uint8/uint16 samples at 60 % of full scale']
 REQUIRED_ANCHORS = ('aryule', 'lpc', 'LEVINSON', 'CORRELATION')
 
 
@@ -24,7 +24,7 @@ def _data_ok(X):
     try:
         x = np.asarray(X)
         return x.ndim == 1 and len(x) >= 2 and np.all(np.isfinite(x)) and np.any(x) and \
-            x.dtype.kind in 'fc' or (x.dtype.kind == 'i' and x.dtype.itemsize == 8 and np.any(x))
+            x.dtype.kind in 'fciu'
     except Exception:
         return False
 
@@ -90,6 +90,8 @@ def post_aryule(X, order, norm, result):
     if not _data_ok(X):
         return c.discard('aryule:data-domain')
     x = np.asarray(X)
+    if x.dtype.kind in 'iu':
+        x = x.astype(float)              # the monitor's arithmetic is floating point whatever the storage type
     if norm != 'biased':
         return c.discard('aryule:norm-not-biased')
     try:
@@ -98,7 +100,7 @@ def post_aryule(X, order, norm, result):
         return c.discard('aryule:order-domain')
     if not (1 <= order < len(x)):
         return c.discard('aryule:order-domain')
-    feats = {'fn': 'aryule', 'cplx': bool(np.iscomplexobj(x))}
+    feats = {'fn': 'aryule', 'cplx': bool(np.iscomplexobj(x)), 'dtype': np.asarray(X).dtype.name}
     try:
         A, P, k = result
     except Exception:
@@ -158,12 +160,14 @@ def cases(c):
         out.append({'N': N, 'order': int(rng.integers(1, min(N - 1, 30) + 1)), 'cplx': int(rng.integers(0, 2)),
                     'kind': gen.pick(rng, KINDS), 'cont': gen.pick(rng, ['array', 'array', 'list']),
                     'amp10': int(gen.pick(rng, [0, 0, 0, -3, -5, -6, 3, 5])), 'i': i})
+        if i % 7 == 2 and not out[-1]['cplx']:
+            out[-1].update(variant=gen.NARROW[(i // 7) % len(gen.NARROW)], amp10=0)     # wav / ADC samples
     return out
 
 
 def run_case(c, d):
     import spectrum
-    x = gen.data({'kind': d['kind'], 'N': d['N'], 'cplx': bool(d['cplx'])}, c.rng(d, 'x'))
+    x = gen.data({'kind': d['kind'], 'N': d['N'], 'cplx': bool(d['cplx']), 'variant': d.get('variant')}, c.rng(d, 'x'))
     if d.get('amp10'):
         x = x * 10.0 ** d['amp10']            # "any non-zero data": the estimator is scale equivariant
     order = d['order']
